@@ -61,9 +61,12 @@ CHECKS = {
              "granules, any contents: stream in chain order, by recursion through its own contract, both parameter shapes) and the add_file "
              "composition.  Unbounded, reader side: read_data (any image, any FAT-linked chain, any length, every preamble shape: the data "
              "in chain order, by recursion through its own contract) and calculate_file_length (while-loop invariant over a chain of any "
-             "length).  NOT under contract: the 72-entry directory loop of list_files that composes them.  BOUNDED stand-in for that "
-             "composition: enumerated data lengths x fill orders x file kinds x pre-existing files with symbolic contents, tool reader and "
-             "independent reader (specs/diskbasic).", "DESIGN 4 C07, 12", TECHB),
+             "length), and list_files itself: the 72-slot directory loop (invariant: position, number of files so far; per active slot "
+             "exactly one file whose type comes from the entry, whose data are read_data's result of the recorded length, whose "
+             "addresses come from the stream's preamble / postamble bytes), callees through their contracts.  Name bytes are read through "
+             "read_sequence's contract; their normalisation (strip, case) is covered by the BOUNDED part only: enumerated data lengths x "
+             "fill orders x file kinds x pre-existing files with symbolic contents, tool reader and independent reader "
+             "(specs/diskbasic).", "DESIGN 4 C07, 12", TECHB),
     "C08": C("other", "Unbounded, function by function with the image as a z3 array: seek_granule geometry, length identity, write_bytes_to_buffer "
              "(loop invariant), write_dir_entry layout, write_to_fat for chains of ANY length (injectivity ghost), write_to_granules for ANY "
              "data length / chain / contents (stream in chain order + frame, no condition on where the trailer falls), and DiskFile.add_file "
